@@ -218,6 +218,7 @@ fn gen_stream_part(rng: &mut Rng, sc: &ThreadScenario, pal: &[u8], s: usize, all
         reads,
         default_read,
         scribble: rng.chance(1, 2),
+        vectored: rng.chance(1, 3),
         op: kind,
         table,
         closure: vec![*rng.pick(&[ClosureStep::Table, ClosureStep::Echo, ClosureStep::TableBytewise])],
